@@ -255,6 +255,21 @@ func jParseRemainder(data []byte) {
 		}
 		var v any
 		rest, err := json.Parse(data, &v, 0)
+		// the remainder contract does not depend on the destination: with a destination that cannot be decoded into
+		// (nil, a non-pointer, a nil pointer) the same remainder comes back, with an InvalidUnmarshalError for valid input
+		for k, dst := range []any{nil, 5, (*int)(nil), struct{ A int }{}} {
+			r2, e2 := json.Parse(data, dst, 0)
+			if err == nil {
+				if _, ok := e2.(*json.InvalidUnmarshalError); !ok {
+					return fmt.Sprintf("invalid destination %d: error %T %v", k, e2, e2)
+				}
+				if !bytes.Equal(r2, rest) {
+					return fmt.Sprintf("invalid destination %d: rest=%s, with a valid destination rest=%s", k, hexs(r2), hexs(rest))
+				}
+			} else if e2 == nil {
+				return fmt.Sprintf("invalid destination %d: no error", k)
+			}
+		}
 		if err != nil {
 			return "err"
 		}
@@ -396,7 +411,7 @@ func fullStreamValues(data []byte) []string {
 func flagHygieneStreams() {
 	// literals and numbers cut by a buffer fill at every split point (the parser must ask for more input, not fail)
 	for _, boundary := range []int{4096, 32768} {
-		for _, tok := range []string{"false", "true", "null", "[false]", "{\"k\":false}", "-12.5e+3"} {
+		for _, tok := range []string{"false", "true", "null", "[false]", "{\"k\":false}", "-12.5e+3", "\"a\\\"b\\u0041c\\\\d\\n\"", "[1, 2 ,3,\n4]", "{\"k\\\"\" : [\"\\\\\",7] , \"l\":{}}"} {
 			for cut := 1; cut < len(tok); cut++ {
 				var b bytes.Buffer
 				b.WriteString("0")
